@@ -1076,7 +1076,33 @@ func (g *gen) idiom(d int, top bool) []stmtText {
 	e := func() string { return g.w(g.expr(kAny, d-1), pAssign) }
 	c := func() string { return g.condTest(d - 1).s }
 	cp := func() string { return g.w(g.condTest(d-1), pBitOr) }
-	switch r.Intn(29) {
+	switch r.Intn(31) {
+	case 29, 30: // a captured variable used at every level of a closure chain, locals declared at the bottom (renamer: link chain)
+		x := g.fresh("v")
+		g.declare(&variable{name: x, k: kNum, decl: "var"})
+		depth := 2 + r.Intn(3)
+		var b strings.Builder
+		b.WriteString("var " + x + "=" + r.Pick("7", "11", "3") + ";" + h() + "(")
+		closers := ""
+		for d := 0; d < depth; d++ {
+			m := g.fresh("m")
+			switch r.Intn(3) {
+			case 0:
+				b.WriteString("function(){var " + m + "=" + x + "+" + fmt.Sprint(d) + ";" + h() + "(" + m + ");return ")
+				closers = "}()" + closers
+			case 1:
+				b.WriteString("(()=>{let " + m + "=" + x + "*2;" + h() + "(" + m + ");return ")
+				closers = "})()" + closers
+			default:
+				b.WriteString("function " + g.fresh("n") + "(){" + h() + "(" + x + ");return ")
+				closers = "}()" + closers
+			}
+		}
+		l1, l2 := g.fresh("l"), g.fresh("l")
+		b.WriteString("function(){var " + l1 + "=1," + l2 + "=2;return " + x + "+" + l1 + "*10+" + l2 + "*100}()")
+		b.WriteString(closers + ")")
+		g.kindHit("idiom:closure-chain")
+		return one(b.String(), true)
 	case 27, 28: // c?f(x):f(y) where evaluating c rebinds f: the callee must be read AFTER the condition (K117)
 		f := g.fresh("f")
 		s := g.fresh("f")
